@@ -276,12 +276,14 @@ static void drain_fd(int fd)
 
 static void *xpost_thread(void *arg)
 {
+	errno = EINTR;	/* errno holds whatever an earlier call left there */
 	iv_event_post(arg);
 	return NULL;
 }
 
 static void *xrawpost_thread(void *arg)
 {
+	errno = EINTR;	/* errno holds whatever an earlier call left there */
 	iv_event_raw_post(arg);
 	return NULL;
 }
@@ -433,6 +435,7 @@ static void one_action(char *act)
 		i = objnum(a1, 'e');
 		if (!E[i].exists || !E[i].isreg) return;	/* posting to an unregistered event is invalid use */
 		logf_("API evPost e%d\n", i);
+		errno = EINTR;	/* errno holds whatever an earlier call left there */
 		iv_event_post(E[i].o);
 	} else if (!strcmp(op, "xpost")) {
 		pthread_t th;
@@ -459,6 +462,7 @@ static void one_action(char *act)
 		i = objnum(a1, 'r');
 		if (!R[i].exists || !R[i].isreg) return;
 		logf_("RAWPOST r%d self\n", i);
+		errno = EINTR;	/* errno holds whatever an earlier call left there */
 		iv_event_raw_post(R[i].o);
 	} else if (!strcmp(op, "xrawpost")) {
 		pthread_t th;
